@@ -80,6 +80,39 @@ fn main() {
                 }
                 continue;
             }
+            if let Some(arg) = first.strip_prefix(";;;host-reload ") {
+                // `;;;host-reload N`: the rest of the piece is a script; it is run N times on this engine (each
+                // run = one top-level evaluation, as a REPL / embedder re-running a file does).  After every
+                // tenth of the runs one line `=> globals (len shadowed free threshold epoch)`: length of the
+                // symbol map, queued shadowed slots, reclaimed slots waiting for reuse, recycler threshold and
+                // epoch (`Engine::globals`, `Engine::verif_free_list`); then the result of the last run.
+                let n: usize = arg.trim().parse().unwrap_or(1);
+                let script: String = piece.lines().skip(1).collect::<Vec<_>>().join("\n");
+                let mut last = String::new();
+                let report = |engine: &Engine| {
+                    let (shadowed, free, threshold, epoch) = engine.verif_free_list();
+                    println!(
+                        "=> globals ({} {} {} {} {})",
+                        engine.globals().len(),
+                        shadowed.len(),
+                        free.len(),
+                        threshold,
+                        epoch
+                    );
+                };
+                report(&engine);
+                for i in 0..n {
+                    last = eval_piece(&mut engine, &script);
+                    if !last.starts_with("=> ok") {
+                        break;
+                    }
+                    if (i + 1) % (n / 10).max(1) == 0 {
+                        report(&engine);
+                    }
+                }
+                println!("{}", last);
+                continue;
+            }
             if first.starts_with(";;;host-release") {
                 held.clear();
                 println!("=> ok released");
